@@ -266,4 +266,24 @@ theorem C15_rayleigh (A : List (List α)) (b x u : List α) (disp : α) (hd : di
 example : rayleighCoded (quadGrad ([[-2, 0], [0, 2]] : List (List ℚ)) [1, 1]) (1 / 1000) [1 / 2, 1 / 4] [1, 0]
     = (-2, [0, 0]) := by decide +kernel
 
+/-- Bridge (tie #1): `rayleigh_ritz_function_gradient` in the current source is, statement by statement, what
+    `rayleighCoded` was transcribed from, with the fixed displacement `δ = 1e-3` — a constant of the curvature
+    search, not a function of any option of the transition-state search. -/
+theorem C15_bridge_rayleigh : Gen.Hef.rayleighDisp = (1, 1000) := by decide
+
+/-- `C15_rayleigh` at the displacement the source uses. -/
+theorem C15_rayleigh_at_source_displacement (A : List (List α)) (b x u : List α)
+    (hA : ∀ row ∈ A, row.length = x.length) (hAl : A.length = x.length)
+    (hb : b.length = x.length) (hu : u.length = x.length) :
+    let δ : α := (Gen.Hef.rayleighDisp.1 : α) / (Gen.Hef.rayleighDisp.2 : α)
+    (rayleighCoded (quadGrad A b) δ x u).1 = dot (matVec A u) u ∧
+    ((∀ y ∈ (rayleighCoded (quadGrad A b) δ x u).2, y = 0) ↔
+      matVec A u = vscale (dot (matVec A u) u) u) := by
+  intro δ
+  have hδ : δ ≠ 0 := by
+    simp only [δ, C15_bridge_rayleigh]
+    norm_num
+  obtain ⟨h1, _, h3, _⟩ := C15_rayleigh A b x u δ hδ hA hAl hb hu
+  exact ⟨h1, h3⟩
+
 end TopSearch.Props.C15
